@@ -17,7 +17,7 @@ PROP = "C06"
 LEVEL = "exploration"
 P_YIELD = 0.1
 PROFILES = ["faultfree", "replyloss", "requestloss", "late", "dup", "silent", "blackout", "stall", "mixed"]
-OPS = ["press", "set", "getwc", "setwc", "remind", "refresh", "ping"]
+OPS = ["press", "set", "getwc", "setwc", "remind", "refresh", "ping", "press_sync", "set_sync"]
 
 
 def gen_case(seed: int, tier: str, index: int) -> Dict[str, Any]:
@@ -180,6 +180,20 @@ async def scenario(world: WorldA) -> None:
                 rec["value"] = await spa.async_press(op["arg"] % 24)
             elif kind == "set":
                 await spa.struct.async_set_value(600 + op["arg"] % 20, 1, op["arg"] % 256)
+            elif kind == "press_sync":
+                # the blocking-style entry points: they return at once, the library carries the command out in a task of its own -- every
+                # one of them is a caller of the connection like any other
+                n0 = len(sysm.all_tasks)
+                spa.press(op["arg"] % 24)
+                rec["sync"] = "SPA:Button press task"
+                rec["task_created"] = len(sysm.all_tasks) - n0
+                res.probe("caller_through_the_blocking_style_api")
+            elif kind == "set_sync":
+                n0 = len(sysm.all_tasks)
+                spa.struct.set_value(600 + op["arg"] % 20, 1, op["arg"] % 256)
+                rec["sync"] = "SPA:Set value task"
+                rec["task_created"] = len(sysm.all_tasks) - n0
+                res.probe("caller_through_the_blocking_style_api")
             elif kind == "getwc":
                 rec["value"] = await spa.async_get_watercare()
             elif kind == "setwc":
@@ -332,12 +346,20 @@ def check_history(world: WorldA, sysm: System, ops, heal_t: float, per_call: flo
                 last_packet_inner[e[2]["put_by"]] = None        # one re-queue per packet
     calls = sysm.calls.calls
     shape = []
+    overlap_names: set = set()
     for c in calls:
         if c["outcome"] is None and not setup_failed:
             # a library task cancelled by teardown inside the wrapper is recorded as cancelled; None means
             # the call neither returned nor was cancelled -> it is stuck
             world.violate(PROP, "call-never-returns", f"call #{c['id']} {c['kind']} by {c['task']} invoked at "
                           f"{c['invoke_t']:.2f} never returned")
+        if c["task"] in ("SPA:Button press task", "SPA:Set value task") and any(
+                o is not c and o["task"] == c["task"] and o["invoke_seq"] < (c.get("return_seq") or 10 ** 12) and (o.get("return_seq") or 10 ** 12) > c["invoke_seq"]
+                for o in calls):
+            # two library tasks of the same name were in flight together: their datagrams cannot be told apart by the sender's name
+            res.probe("same_named_library_tasks_overlap")
+            overlap_names.add(c["task"])
+            continue
         sends = [r for r in hist[c["net_mark"]:c.get("net_end", len(hist))]
                  if r.who == c["task"] and r.verb in REQUEST_VERBS and r.src[0] != SPA_IP
                  and c["invoke_seq"] < r.lseq < c["return_seq"]]
@@ -418,6 +440,8 @@ def check_history(world: WorldA, sysm: System, ops, heal_t: float, per_call: flo
         last = None
         for r in reqs:
             c = owner.get(r.seq)
+            if c is None and r.who in overlap_names:
+                continue
             if c is None:
                 world.violate(PROP, "unattributed-request", f"request {r.verb} by {r.who} at {r.t:.3f} belongs to no recorded call")
             if last is not None and c is not last:
@@ -437,6 +461,17 @@ def check_history(world: WorldA, sysm: System, ops, heal_t: float, per_call: flo
         if waiting >= 3:
             res.probe("three_or_more_waiters")
 
+    # 4b. every caller is served: a command made through the blocking-style API is handed to a task of the library -- one new task per command,
+    #     whatever else is in flight (whether that task then finds a gate closed is its own business)
+    for o in ops:
+        if o.get("sync") and o.get("outcome") == "returned":
+            if o.get("task_created") != 1:
+                busy = [c for c in calls if c["task"] == o["sync"] and c["invoke_seq"] < o["invoke_seq"] and (c.get("return_seq") or 10 ** 12) > o["invoke_seq"]]
+                world.violate(PROP, "caller-never-served", f"op#{o['k']} {o['op']} at {o['invoke_t']:.2f}: the library started {o.get('task_created')} task(s) for this "
+                              f"command ({len(busy)} earlier command(s) of the same kind still in flight): the command is never carried out and nobody is told",
+                              sig="caller-never-served:blocking-style-api")
+            elif any(c["task"] == o["sync"] and c["invoke_seq"] < o["invoke_seq"] and (c.get("return_seq") or 10 ** 12) > o["invoke_seq"] for c in calls):
+                res.probe("blocking_style_command_while_another_of_its_kind_is_in_flight")
     # 5. gates
     for o in ops:
         if o.get("must_silent"):
@@ -484,7 +519,7 @@ ASSUMPTIONS = [
     "reply the ping loop took from the receive queue is older than that window plus 0.3 s (+ injected stall)",
     "STATQ acknowledgements are not requests (sent by the partial-update consumer outside the lock by design)",
 ]
-PROBES = ["retried_call", "retry_exhausted_call", "three_or_more_waiters", "caller_cancelled", "call_failed",
+PROBES = ["caller_through_the_blocking_style_api", "blocking_style_command_while_another_of_its_kind_is_in_flight", "retried_call", "retry_exhausted_call", "three_or_more_waiters", "caller_cancelled", "call_failed",
           "gate_closed:press:ping-silent", "gate_closed:getwc:ping-silent", "gate_closed:set:ping-silent",
           "gate_closed:setwc:ping-silent", "gate_closed:remind:ping-silent"]
 N_QUICK = 1600
